@@ -280,7 +280,8 @@ def terminal_size_cached(func: Callable[P, T]) -> Callable[P, T]:
             if not cache or ts != cache[1]:
                 cache = (func(*args, **kwargs), ts)
 
-        return cache[0]
+            # Still within the lock; the cache might be invalidated by another thread
+            return cache[0]
 
     def invalidate() -> None:
         nonlocal cache
